@@ -68,12 +68,30 @@ def run_shard(spec, res):
                 elif k < 0.72 and nlive >= 2:
                     # probe pair: probe s, disturb another solver of the tree, probe s again
                     other = rng.choice([j for j in range(nlive) if j != s])
-                    p1 = api.probe(run.live[s].solver, exprs, bools, run.b)
+                    # (a hybrid solver has a second, approximate half with state of its own: its answers are probed too)
+                    qkw = {"exact": False} if spec["cls"] == "SolverHybrid" and step_i % 2 else None
+                    if qkw:
+                        res.count("approximate_probe_pairs")
+                    p1 = api.probe(run.live[s].solver, exprs, bools, run.b, qkw=qkw)
                     had_add = False
                     for _ in range(rng.choice([1, 2, 4])):
                         kk = rng.random()
+                        if spec["cls"] == "SolverReplacement" and rng.random() < 0.25:
+                            # the replacement solver's own operation, in its in-place flavour
+                            x_ = al.v()
+                            try:
+                                run.live[other].solver.add_replacement(run.b(x_), claripy.BVV(rng.getrandbits(al.w), al.w), invalidate_cache=False)
+                                run.live[other].tainted = True  # the reference is not told: that solver is only probed from now on
+                                run.log.append([run.clock, other, {"op": "add_replacement(invalidate_cache=False)", "s": other, "e": x_}, ["ok", None]])
+                                res.count("in_place_replacements")
+                                had_add = True
+                            except claripy.errors.ClaripyError:
+                                pass
+                            continue
                         if kk < 0.45:
-                            run.step({"op": "add", "s": other, "cons": [al.constraint()]})
+                            # (range constraints are what the approximate half turns into bounds)
+                            c_ = al.constraint() if rng.random() < 0.6 else [rng.choice(["ule", "uge", "ult", "ugt"]), al.v(), al.k()]
+                            run.step({"op": "add", "s": other, "cons": [c_]})
                             had_add = True
                         elif kk < 0.55:
                             run.step({"op": rng.choice(["simplify", "downsize"]), "s": other})
@@ -82,7 +100,7 @@ def run_shard(spec, res):
                             nlive = len(run.live)
                         else:
                             run.step(H.query_step(al, rng, other))
-                    p2 = api.probe(run.live[s].solver, exprs, bools, run.b)
+                    p2 = api.probe(run.live[s].solver, exprs, bools, run.b, qkw=qkw)
                     pairs += 1
                     res.count("probe_pairs")
                     if had_add:
